@@ -180,6 +180,60 @@ def canonical_text(t) -> str:
         chunks.append("\n".join(ls))
     return "\n---\n".join(chunks) + "\n"
 
+def expected_log(out):
+    log = []
+    for e in out["log"]:
+        k = e["e"]
+        if k == "hdr":
+            log.append(("hdr", tuple(e["doc"])))
+        elif k == "commit":
+            log.append(("commit", e["i"], tuple(e["doc"])))
+        elif k == "drop":
+            log.append(("drop", tuple(e["doc"])))
+        elif k == "stmt":
+            log.append(("stmt", e["c"], e["i"]))
+        elif k == "finalize":
+            log.append(("finalize", bool(e["dep"]), tuple((x["nf"], x["nc"], bool(x["union"]), x["mode"]) for x in e["sections"])))
+    return log
+
+def project_events(events):
+    """Hook events H1 -> the abstract steps of Statements.tla (no-op flushes omitted)."""
+    log, problems = [], []
+    j = 0
+    evs = [e for e in events if e["ev"] in ("flush", "commit", "stmt", "finalize")]
+    while j < len(evs):
+        e = evs[j]
+        if e["ev"] == "flush":
+            if e["header"]:
+                log.append(("hdr", tuple(_doc_ids(e["comment"]))))
+            else:
+                nxt = evs[j + 1] if j + 1 < len(evs) else None
+                if nxt is None or nxt["ev"] != "commit":
+                    problems.append(("attribute flush without a commit step", e))
+                else:
+                    j += 1
+                    if nxt["pending"]:
+                        log.append(("commit", e["attr_line"], tuple(_doc_ids(nxt["doc"]))))
+                        if nxt["doc"] != e["comment"]:
+                            problems.append(("doc handed to the builder differs from the parser's comment", e))
+                    elif e["comment"] != "":
+                        log.append(("drop", tuple(_doc_ids(e["comment"]))))
+        elif e["ev"] == "commit":
+            if e["pending"]:      # a commit that did not come from a parser flush (_queue_attribute flushing a predecessor)
+                problems.append(("an attribute was committed outside a parser flush", e))
+        elif e["ev"] == "stmt":
+            log.append(("stmt", e["kind"], e["line"]))
+        elif e["ev"] == "finalize":
+            if e["pending"]:
+                problems.append(("an attribute is still pending at finalization", e))
+            secs = []
+            for nf, nc, un, mode in e["sections"]:
+                m = "sealed" if mode == "sealed" else ("extent" if mode.startswith("delimited") else "none")
+                secs.append((nf, nc, bool(un), m))
+            log.append(("finalize", bool(e["deprecated"]), tuple(secs)))
+        j += 1
+    return log, problems
+
 def run_case(lines, out, seed: int, variants, roundtrip: bool):
     """Returns list of diffs (empty = conforming)."""
     exp = expected(out)
@@ -189,9 +243,22 @@ def run_case(lines, out, seed: int, variants, roundtrip: bool):
         text = render(lines, seed, v)
         with dsdlio.Tree({"ns/A.1.0.dsdl": text}, "st") as tr:
             fp = str(tr.path("ns/A.1.0.dsdl"))
+            from pydsdl import _verif_trace
+            _verif_trace.drain()
             status, res, prints = dsdlio.read_ns(tr.path("ns"))
+            events = _verif_trace.drain()
             got = project(status, res, prints, fp)
             d = compare(exp, got, fp)
+            if not d:
+                # Binding B: the recorded steps are the ones the specification prescribes
+                glog, problems = project_events(events)
+                elog = expected_log(out)
+                if glog != elog:
+                    n = next((i for i, (a, b) in enumerate(zip(glog, elog)) if a != b), min(len(glog), len(elog)))
+                    d = [("recorded steps diverge from the specification at step %d" % (n + 1), [list(map(str, x)) for x in glog[n:n + 2]],
+                          [list(map(str, x)) for x in elog[n:n + 2]])]
+                elif problems:
+                    d = [(p[0], str(p[1])[:200]) for p in problems[:3]]
             if d:
                 bad.append({"variant": v, "text": text, "diff": d})
             elif roundtrip and status == "ok":
@@ -215,6 +282,8 @@ def worker(arg):
     block, seed, nvariants, roundtrip, sample_mod = arg
     st = tlaval.parse_state_block(block)
     lines, out = st["lines"], st["out"]
+    if len(lines) == 0:
+        return None        # zero lines is not a text: the empty text is the single empty line
     h = hash(block)
     if sample_mod > 1 and len(lines) >= 4 and (h % sample_mod) != 0:
         return None
